@@ -429,6 +429,15 @@ func (a *Analyzer) Feed(r *ev.Rec) {
 		a.onRound(n, r)
 	case "xfer-target":
 		a.onXferTarget(n, r)
+	case "log-change":
+		// C15: the raft goroutine removes entries from its log (truncation of a
+		// conflicting tail, compaction or replacement by an installed snapshot)
+		// inside a request handler; replications of its own leadership that
+		// were not stopped yet read that log from their goroutines
+		a.stat("log-removals-in-request-handlers")
+		if r.NEnt > 0 {
+			a.find("C15", "log-removed-under-running-replications", "log-removed-under-running-replications:"+r.Reason, r.Q, "%s steps down and removes entries from its log (%s) in one request handler while %d replications of its leadership are still running and reading that log", n.key, r.Reason, r.NEnt)
+		}
 	case "unreachable":
 		// the leader's own view: it cannot reach (or refuses) follower r.ID
 		if n != nil {
